@@ -108,6 +108,37 @@ def run(ctx, replay=None):
         sc.run_step_part(ctx, f'local{h}x{w}k{k}_all', sc.local_jobs(h, w, k, helds=helds),
                          dict(comps=steps.COMPOSITIONS['all'], space=steps.family_space(h, w), via='gridworld',
                               rew=steps.R_SHIPPED, term=steps.TERM_SHIPPED, want=['C01', 'DRIFT']), PREFIX, drift=True)
+    # every reward / termination component, distance shaping included, on states that meet its precondition
+    # (exactly one Exit and a Beacon), wide, tall and square shapes, unwalled
+    C = steps.C
+    R_ALL = C('reduce_sum', reward_functions=steps.R_SHIPPED['reward_functions'] + [
+        C('proportional_to_distance', object_type='Exit', distance_function='manhattan', reward_per_unit_distance=-100),
+        C('getting_closer', object_type='Exit', distance_function='manhattan', reward_closer=200, reward_further=-200),
+        C('getting_closer', object_type='Exit', distance_function='euclidean'),
+        C('getting_closer_shortest_path', object_type='Exit', reward_closer=250, reward_further=-250),
+        C('overlap', object_type='Beacon'), C('reach_exit_memory', reward_good=5000, reward_bad=-5000)])
+    T_ALL_TERMS = C('reduce_any', terminating_functions=[C('reduce_all', terminating_functions=[C('reach_exit'), C('overlap', object_type='Exit')]),
+                                                        C('bump_moving_obstacle'), C('bump_into_wall')])
+    jobs = []
+    rid = 0
+    for (h, w) in ([(1, 4), (4, 1), (2, 4), (4, 2), (3, 5), (5, 3), (3, 3)] if ctx.quick else [(1, 4), (4, 1), (2, 4), (4, 2), (3, 5), (5, 3), (3, 3), (2, 7), (7, 2), (4, 6), (6, 4)]):
+        cells = [(y, x) for y in range(h) for x in range(w)]
+        for e in cells:
+            others = [c for c in cells if c != e]
+            b = others[(e[0] * 3 + e[1]) % len(others)]
+            extras = [None] + [(others[(e[0] + e[1] * 2 + k + 1) % len(others)], o) for k, o in enumerate([O('Wall'), O('Door', 1, 'RED'), O('MovingObstacle')])]
+            for extra in extras:
+                grid = [[steps.FLOOR for _ in range(w)] for _ in range(h)]
+                grid[b[0]][b[1]] = O('Beacon', 0, 'RED')
+                if extra is not None and extra[0] != b:
+                    grid[extra[0][0]][extra[0][1]] = extra[1]
+                grid[e[0]][e[1]] = O('Exit', 0, 'RED')
+                for a in cells:
+                    for ori in (steps.ORIS if ctx.quick is False or (a[0] + a[1]) % 2 == 0 else steps.ORIS[:2]):
+                        jobs.append(dict(rec_id=rid, st_json={'grid': grid, 'pos': list(a), 'ori': ori, 'item': steps.HELD[0]}, space=steps.family_space(h, w)))
+                        rid += 1
+    sc.run_step_part(ctx, 'all_reward_components', jobs,
+                     dict(comps=steps.COMPOSITIONS['keydoor'] + [C('move_obstacles')], via='gridworld', rew=R_ALL, term=T_ALL_TERMS, want=['C01', 'C12']), PREFIX + ['C12'])
     # random big states, random compositions
     jobs = []
     for i in range(300 if ctx.quick else 20000):
